@@ -164,7 +164,7 @@ func genCase(t *rapid.T, race bool) kase {
 			progs = append(progs, prog{"p.wa", p.Src[wagen.Wa]})
 		}
 	}
-	ops := []string{"run", "build", "run", "format", "build", "syntax"}
+	ops := []string{"run", "build", "buildvfs", "run", "format", "build", "buildvfs", "syntax"}
 	n := rapid.IntRange(4, 16).Draw(t, "ncalls")
 	k := kase{Race: race, Goroutines: rapid.SampledFrom([]int{2, 4, 8, 16}).Draw(t, "goroutines")}
 	for i := 0; i < n; i++ {
@@ -181,7 +181,7 @@ func run(t *testing.T, name string, race bool) {
 	if race {
 		mode = "worker built with -race; a race report whose frames lie in wa-lang.org/wa is a violation"
 	}
-	s.Rule("rapid-drawn sets of 4–16 public-API calls (RunCode, BuildFile, FormatCode, GetCodeSyntax) over 2–4 generated programs (.wa, .wz, one ill-typed variant), executed first sequentially and then by 2–16 goroutines released together with drawn start offsets, in one process (" + mode + "); oracle = every call returns exactly (output, error text) of its sequential run and the process survives; non-trivial = ≥ 2 compile/format calls on different programs measurably overlapped in time; distinct by case hash")
+	s.Rule("rapid-drawn sets of 4–16 public-API calls (RunCode, BuildFile, BuildVFS on an in-memory module, FormatCode, GetCodeSyntax) over 2–4 generated programs (.wa, .wz, one ill-typed variant), executed first sequentially and then by 2–16 goroutines released together with drawn start offsets, in one process (" + mode + "); oracle = every call returns exactly (output, error text) of its sequential run and the process survives; non-trivial = ≥ 2 compile/format calls on different programs measurably overlapped in time; distinct by case hash")
 	s.Assume("the harness does not own the goroutine scheduler: interleaving coverage is whatever the Go scheduler produces; absence of a report is weak evidence")
 	var out int64
 	s.Check(t, func(t *rapid.T, c *core.Case) {
